@@ -23,7 +23,8 @@ class Check(RuntimeCheck):
                 "Box / Rc / Arc, original moved into a by-value provided method, a second mock built (with an unmet expectation / with a live clone) and dropped by a fixture's Drop while the thread is already unwinding} x {creator thread, other thread} x {met, "
                 "unmet expectations}; each scenario runs in the replay process (child of the check): an abort (SIGABRT) is "
                 "detected by the wait status and bisected to the scenario; afterwards remaining instances are used and "
-                "verified. non-trivial = every cell (each drops a mock while its thread is unwinding)")
+                "verified; plus crash points inside Debug of an argument (error rendering, mismatch report), Clone of a repeatable "
+                "return value and PartialEq inside eq!, each x 5 topologies, one process per cell. non-trivial = every cell (each drops a mock while its thread is unwinding)")
 
     def grid(self, tier):
         out = []
@@ -125,6 +126,39 @@ class Check(RuntimeCheck):
                 mism.append((name, 'spec', (f"process died with {sig} (a second panic while unwinding): {err.strip()[-160:]}", "the original panic is reported and the process exits normally")))
                 order.append(name); real[name] = [f"abort {sig}"]; model[name] = []
             return order, real, model, mism
+
+    def extra(self, rep, tier, seed):
+        """user code panicking where the mock calls into it less visibly (Debug of an argument while an error is rendered
+        or a mismatch reported, Clone of a repeatable return value, PartialEq inside eq!) x topology; one process per cell"""
+        ok, log = engine.build_harness(['crashpoints'])
+        if not ok:
+            path = engine.write_replay(self.prop, 'build', log + '\n', ["harness/src/bin/crashpoints.rs no longer builds against /repo"])
+            rep.violation(path, "crash-point harness does not build against /repo", no_input=True)
+            return
+        exe = os.path.join(engine.HARNESS, 'target', 'debug', 'crashpoints')
+        cells = [(c, t) for c in ('debug-nomatch', 'debug-nomock', 'debug-mismatch', 'clone-return', 'eq-matcher')
+                 for t in ('orig', 'orig+clone', 'clone-first', 'clone-outside', 'clone-only')]
+        def one(cell):
+            p = subprocess.run([exe, cell[0], cell[1]], capture_output=True, text=True, timeout=120)
+            return cell, p.returncode, p.stdout.strip(), p.stderr.strip()[-200:]
+        bad = []
+        with concurrent.futures.ThreadPoolExecutor(max_workers=8) as ex:
+            results = list(ex.map(one, cells))
+        for (cell, rc, out, err) in results:
+            if rc != 0:
+                sig = 'SIGABRT' if rc == -6 else f"exit status {rc}"
+                bad.append((cell, f"process died with {sig} (a second panic while unwinding): {err}"))
+            elif ' ok ' not in out:
+                bad.append((cell, out or 'no output'))
+            elif 'teardown panicked' in out and cell[1] != 'clone-only':
+                bad.append((cell, out))
+        for (cell, why) in bad[:2]:
+            path = engine.write_replay(self.prop, 'spec', f"{exe} {cell[0]} {cell[1]}\n", [f"property C11 violated by the real code in crash-point cell {cell[0]}/{cell[1]}: {why}",
+                                                                                         "replay: run the command line below"])
+            rep.violation(path, f"crash point {cell[0]} with topology {cell[1]}: {why}"[:400])
+        rep.coverage['crash_points'] = {'cells': len(cells), 'failed': len(bad)}
+        rep.coverage['evaluations'] = rep.coverage.get('evaluations', 0) + len(cells)
+        rep.coverage['distinct_nontrivial'] = rep.coverage.get('distinct_nontrivial', 0) + len(cells)
 
     def nontrivial(self, name, text, real_lines):
         return 'unwindcall' in text or 'consume' in text or any(l.startswith('call user-panic') for l in real_lines)
